@@ -118,7 +118,7 @@ func withRsv(inv []bad, ext bool) []bad {
 	return inv
 }
 
-var runEntries = []string{"reader", "reader-ctlhandler", "readmessage", "readdata", "reader-discard", "readtext", "readbinary"}
+var runEntries = []string{"reader", "reader-nohandler", "reader-ctlhandler", "readmessage", "readdata", "reader-discard", "readtext", "readbinary"}
 
 func isProtocolErr(err error) bool {
 	_, ok := err.(ws.ProtocolError)
@@ -135,8 +135,23 @@ func runOne(c *mon.C, shapes []gen.Shape, side ref.Side, ext bool, b bad, withTa
 			}
 		}
 	}
-	pstream, _, marks := gen.Encode(pframes)
 	_, frag := ref.Reassemble(pframes)
+	// every other run with an open message: a CLOSE frame sits between the open message's fragments and the offending
+	// frame (a control frame may be injected in the middle of a fragmented message; what follows it is still judged
+	// by the framing rules). Only through the raw reader with a recording / without a handler: the built-in control
+	// handlers end the session at the close, which is their business (C08).
+	closeBefore := frag && !wantTooLarge && (c.I+len(b.name)+len(shapes))%2 == 0
+	if closeBefore {
+		cf := ref.Frame{H: ref.Header{Fin: true, Op: ref.OpClose, Masked: side == ref.SideServer}, Payload: [][]byte{nil, {0x03, 0xe9}, {0x03, 0xe8, 'b', 'y', 'e'}}[c.I%3]}
+		if side == ref.SideNone {
+			cf.H.Masked = c.Rng.Intn(2) == 0
+		}
+		if cf.H.Masked {
+			c.Rng.Read(cf.H.Mask[:])
+		}
+		pframes = append(pframes, cf)
+	}
+	pstream, _, marks := gen.Encode(pframes)
 
 	// encode the offending frame
 	fh := b.h
@@ -193,7 +208,10 @@ func runOne(c *mon.C, shapes []gen.Shape, side ref.Side, ext bool, b bad, withTa
 		// (the size limit is a resource bound of its own: it holds with the RFC header checks switched off too)
 		entries = []string{"reader", "reader-skipcheck"}
 	}
-	if maxFrame == 0 {
+	if closeBefore {
+		entries = []string{"reader", "reader-nohandler"}
+	}
+	if maxFrame == 0 && !closeBefore {
 		// a deadline-driven read loop: the read that would deliver the first byte of the offending frame times out
 		// once (nothing consumed), the consumer calls again
 		entries = append(append([]string(nil), entries...), "reader-retry")
@@ -226,6 +244,9 @@ func runOne(c *mon.C, shapes []gen.Shape, side ref.Side, ext bool, b bad, withTa
 		if entry == "reader-retry" {
 			o.Entry, o.Retry = "reader", true
 		}
+		if entry == "reader-nohandler" {
+			o.Entry, o.Intermediate = "reader", 2 // no OnIntermediate handler at all: the Reader drains control frames itself
+		}
 		if entry == "reader-discard" {
 			// every message, the open one included, is skipped with Discard
 			// after reading 0 or 1 of its bytes
@@ -250,7 +271,7 @@ func runOne(c *mon.C, shapes []gen.Shape, side ref.Side, ext bool, b bad, withTa
 			obs := drive.Run(src, o)
 			det := func() map[string]interface{} {
 				return map[string]interface{}{"prefix": gen.ShapesKey(shapes), "offending": b.name, "offending_header": fh.String(), "side": side, "extended": ext, "fragmented_before": frag,
-					"tail": withTail, "entry": entry, "plan": plan.String(), "buf": o.Buf, "max_frame_size": maxFrame,
+					"tail": withTail, "close_frame_before_the_offending_frame": closeBefore, "entry": entry, "plan": plan.String(), "buf": o.Buf, "max_frame_size": maxFrame,
 					"got": drive.EventStrings(obs.Events), "want": drive.EventStrings(want), "err": fmt.Sprint(obs.Err), "partial": fmt.Sprintf("%x", obs.Partial), "consumed": ch.Pos, "offending_header_end": hdrEnd, "written": fmt.Sprintf("%x", obs.Written)}
 			}
 			cls := b.name
